@@ -69,7 +69,46 @@ def _sut_root():
     return os.path.realpath(os.path.join(os.environ.get("VERIF_REPO", "/repo"), "xobjects")) + os.sep
 
 
+_TINY, _MINNORM, _ONE, _HALF = 5e-324, 2.2250738585072014e-308, 1.0, 0.5
+
+
+def _fp_mode_ok():
+    """subnormal numbers are neither flushed on input (DAZ) nor on output (FTZ) in this thread"""
+    return _TINY * _ONE != 0.0 and _MINNORM * _HALF != 0.0
+
+
+def _fp_mode_restore():
+    import ctypes
+    import ctypes.util
+
+    libm = ctypes.CDLL(ctypes.util.find_library("m") or "libm.so.6")
+    libm.fesetenv(ctypes.c_void_p(-1))  # FE_DFL_ENV of glibc
+    return _fp_mode_ok()
+
+
 def run_case_guarded(mod, case):
+    """run_case plus two guards (see _run_case_guarded for the first).  Second guard: the floating-point mode of the
+    calling thread is process state the library must not alter; when a case leaves it altered (subnormal numbers
+    flushed to zero - what loading code built with -ffast-math does) the mode is restored so that the campaign can go
+    on, and for the properties that promise faithful delivery of every value through compiled code (FP_MODE_MATTERS)
+    the case is a violation: values of the subnormal range can no longer be stored or passed faithfully."""
+    before = _fp_mode_ok()
+    out = _run_case_guarded(mod, case)
+    if before and not _fp_mode_ok():
+        restored = _fp_mode_restore()
+        if getattr(mod, "FP_MODE_MATTERS", False) and out.ok:
+            return core.fail(
+                "floating_point_mode_switched",
+                "after this case subnormal numbers are flushed to zero in the calling thread (5e-324 * 1.0 == 0): code "
+                "loaded by the library switched the processor's floating-point mode, so Float32/Float64 values of the "
+                "subnormal range are no longer delivered or stored faithfully" + ("" if restored else " (mode could not be restored)"),
+                "",
+                out.labels,
+            )
+    return out
+
+
+def _run_case_guarded(mod, case):
     """run_case; an exception raised INSIDE the library under test that escaped the check's own sut() wrappers (a
     navigation or a message formatted from a live object) is the library failing on an operation the check performs on
     every case of the unchanged tree: it is reported as a violation of the property, not as a harness error.
